@@ -17,7 +17,7 @@ pub struct PackId { pub _opaque: u64 }
 #[derive(Clone, Copy)]
 pub struct Timestamp { pub t: i64 }
 // a blob is identified by its TYPE together with its id (the property's blob identity)
-pub struct IndexBlob { pub tpe: BlobType, pub id: BlobId, pub _opaque: u64 }
+pub struct IndexBlob { pub tpe: BlobType, pub id: BlobId, pub location: BlobLocation, pub _opaque: u64 }
 // EnumSet<PackStatus>: informational flags only (debug statistics); opaque
 #[derive(Clone, Copy)]
 pub struct StatusSet { pub _opaque: u64 }
